@@ -237,6 +237,29 @@ def check_async(case, counters, sets):
                 if acc.get(0, 0) - outs > lim:
                     add('C03:bound-exceeded@%s' % kind, '%s(%d): %d elements accepted but not yet handed on at t=%s (limit %d)'
                         % (kind, n, acc.get(0, 0) - outs, e[1], lim))
+        if kind == 'zip':
+            # one awaiting producer per input: a held-back emit is exactly one element beyond the bound, so every emit
+            # that is held back when a tuple leaves the buffers must be let go at that very (virtual) instant
+            released_at = {e[6]: e[1] for e in log.ev if e[3] == nid and e[2] == 'ACCEPTED'}
+            due = {}
+            cur = {}
+            for e in log.ev:
+                if e[3] != nid:
+                    continue
+                if e[2] == 'PENDING':
+                    cur[e[0]] = e
+                elif e[2] == 'ACCEPTED':
+                    cur.pop(e[6], None)
+                elif e[2] == 'OUT':
+                    for idx, pe in cur.items():
+                        due.setdefault(idx, (e[1], pe))
+            for idx, (t_due, pe) in due.items():
+                counters['B_zip_waiters_checked'] = counters.get('B_zip_waiters_checked', 0) + 1
+                t_rel = released_at.get(idx)
+                if t_rel is None or t_rel > t_due + 1e-9:
+                    add('C03:waiter-not-released@zip', 'zip(maxsize=%d): an emit of %r was held back at t=%s; a tuple left the '
+                        'buffers at t=%s (its buffer is back within the bound) but the emit was released %s'
+                        % (n, pe[4], pe[1], t_due, 'never' if t_rel is None else 'only at t=%s' % t_rel))
         if kind == 'map_async':
             mr = ar.max_running.get('n1', 0)
             counters['B_parallel_evaluation_checks'] = counters.get('B_parallel_evaluation_checks', 0) + 1
